@@ -518,6 +518,23 @@ func ruleDoBounded(c *Ctx, r *R) {
 			})
 		}
 		r.ok(!nested, name+"|worker-sequential", fn.Pos(), "a worker must run f sequentially; a nested go would exceed the requested parallelism")
+		// the spawning goroutine itself does not call f on a path that also spawns workers (the sequential parallelism == 1
+		// path returns before the spawn loop): "let the caller help" makes parallelism+1 calls run at once
+		inline := false
+		var inlinePos token.Pos
+		spawnBlock := site.Block()
+		for _, di := range deepInstrs(fn, 2) {
+			call, ok := di.in.(*ssa.Call)
+			if !ok || !isUserFn(call) {
+				continue
+			}
+			sb := di.site.Block()
+			if sb == spawnBlock || reaches(spawnBlock, sb) || reaches(sb, spawnBlock) {
+				inline = true
+				inlinePos = di.site.Pos()
+			}
+		}
+		r.ok(!inline, name+"|caller-does-not-work", inlinePos, "the goroutine that spawns the workers also calls f itself on the same path: with the requested number of workers running, that is one call more than the requested parallelism")
 	}
 }
 
@@ -605,6 +622,58 @@ func ruleDoErrorContract(c *Ctx, r *R) {
 			}
 			unchanged := flows(call, di.calls)
 			r.ok(unchanged, "parallel.DoContext|worker-returns-f-error", call.Pos(), "the worker must return f's non-nil error itself")
+			// … on EVERY path: once f's error is known non-nil (or is untested), the frame neither claims another index nor
+			// calls f again nor returns something else (an `if errors.Is(err, context.Canceled) { continue }` swallows a
+			// call's own failure)
+			{
+				frame := call.Parent()
+				swallowed := false
+				var swPos token.Pos
+				pfe := &PF{N: 3} // 0 clean, 1 f returned - untested, 2 f's error is non-nil
+				pfe.Instr = func(f *ssa.Function, in ssa.Instruction, q int) (StateSet, bool) {
+					if in == ssa.Instruction(call) {
+						return ss(1), true
+					}
+					return 0, false
+				}
+				pfe.Edge = func(f *ssa.Function, g guard, q int) (StateSet, bool) {
+					cf, ok := g.asCmp()
+					if !ok || q == 0 {
+						return 0, false
+					}
+					x, y := cf.x, cf.y
+					if y == ssa.Value(call) {
+						x, y = y, x
+					}
+					if x != ssa.Value(call) || !isNilConst(y) {
+						return 0, false
+					}
+					if cf.op == token.EQL {
+						return ss(0), true
+					}
+					return ss(2), true
+				}
+				pfe.Visit = func(f *ssa.Function, in ssa.Instruction, before StateSet) {
+					if !before.has(2) && !before.has(1) {
+						return
+					}
+					switch x := in.(type) {
+					case *ssa.Call:
+						if x == call {
+							swallowed, swPos = true, x.Pos()
+						}
+						if cal := x.Call.StaticCallee(); cal != nil && cal.Name() == "AddInt32" {
+							swallowed, swPos = true, x.Pos()
+						}
+					case *ssa.Return:
+						if len(x.Results) > 0 && returnedValue(x, 0) != ssa.Value(call) {
+							swallowed, swPos = true, retPos(x)
+						}
+					}
+				}
+				pfe.Exits(frame, ss(0))
+				r.ok(!swallowed, "parallel.DoContext|f-error-not-swallowed", swPos, "on a path where f returned a non-nil error the worker goes on (claims the next index / returns something else): that call's failure is lost and DoContext can return nil although a call failed")
+			}
 		}
 		// the branch taken when ctx.Err() != nil returns ctx.Err(), not nil
 		nb := 0
